@@ -9,7 +9,9 @@ fi
 git apply "$P" || git apply --3way "$P"
 git status --short
 cd /verif
+saved=$(mktemp -d /verif/.work/evidence.XXXXXX); cp -p evidence/*.json "$saved"/
 for id in "$@"; do
   ./check "$id" 2>&1 | grep -E "VIOLATION|KNOWN-FINDING|done:|DISAGREE|FAILED" | cut -c1-400
 done
+cp -p "$saved"/*.json evidence/; rm -rf "$saved"
 git -C /repo checkout -- . ; git -C /repo reset -q; git -C /repo status --short
